@@ -142,6 +142,63 @@ class CosParity(FunctionContract):
         return (not np.allclose(lhs, rhs, rtol=1e-12, atol=1e-10), {"strikes": K.tolist(), "call-put": np.asarray(lhs).tolist(), "df*(fwd-K)": rhs.tolist()})
 
 
+class CosButterfly(FunctionContract):
+    """COSPricer.butterfly (real body; call abstract, put tied to it by the parity CosParity proves): the price is the call
+    combination C(K1) - 2 C(K2) + C(K3) -- the second difference whose sign is the convexity clause -- for ANY three
+    strikes, equally spaced or not."""
+    prop = "C18"
+    target = COS + ".butterfly"
+    name = "COSPricer.butterfly"
+
+    def configure(self, interp):
+        from pyvc import ctx
+        CALLC = z3.Function("COS_CALL", z3.RealSort(), z3.RealSort(), z3.RealSort())
+        self._call = CALLC
+
+        def call(it, f, b):
+            ks = np.ravel(np.asarray(b["strikes"], dtype=object))
+            return np.array([Sym(CALLC(as_real_term(lift(k)), as_real_term(lift(b["time"]))), "r") for k in ks], dtype=object)
+
+        def put(it, f, b):
+            g = ctx.PATH.ghost
+            ks = np.ravel(np.asarray(b["strikes"], dtype=object))
+            return np.array([Sym(CALLC(as_real_term(lift(k)), as_real_term(lift(b["time"]))), "r") - g["df"] * (g["fwd"] - k) for k in ks], dtype=object)
+        interp.hooks[COS + ".call"] = call
+        interp.hooks[COS + ".put"] = put
+
+    def setup(self, vc, case):
+        ks = vc.reals("strike", 3)
+        t, df, fwd = vc.real("t"), vc.real("df"), vc.real("fwd")
+        vc.assume(And(0 < ks[0], ks[0] < ks[1], ks[1] < ks[2], t > 0, df > 0, fwd > 0))
+        vc.ghost.update(ks=ks, t=t, df=df, fwd=fwd)
+        pr = vc.obj(COS, n=8, l=10)
+        return dict(self=pr, strike1=ks[0], strike2=ks[1], strike3=ks[2], time=t)
+
+    def ensures(self, result, **a):
+        from pyvc import ctx
+        g = ctx.PATH.ghost
+        c = [Sym(self._call(as_real_term(k), as_real_term(g["t"])), "r") for k in g["ks"]]
+        return {"butterfly-is-the-call-combination": result == c[0] - 2 * c[1] + c[2]}
+
+    def replay(self, model, clause, case):
+        from contracts import battery
+        from rpylib.numerical.cosmethod import COSPricer
+        m = battery.models(("hem",))["hem"]
+        pr = COSPricer(m)
+        f = lambda v, d: float(v["float"]) if isinstance(v, dict) else (float(v) if v is not None else d)
+        sm = model.get("strike") if isinstance(model.get("strike"), list) else []
+        for ks in ([f(sm[k] if k < len(sm) else None, None) for k in range(3)], [0.9, 0.95, 1.2]):
+            if None in ks or not 0 < ks[0] < ks[1] < ks[2] or ks[2] > 5:
+                continue
+            K = np.array(ks) * m.spot
+            got = float(pr.butterfly(K[0], K[1], K[2], 0.7))
+            c = np.asarray(pr.call(K, 0.7), float)
+            want = float(c[0] - 2 * c[1] + c[2])
+            if abs(got - want) > 1e-9 * m.spot:
+                return (True, {"strikes": K.tolist(), "butterfly": got, "call_combination": want})
+        return (False, {})
+
+
 class CosPutWiring(Lemma):
     """COSPricer.put / digital (real constructor and bodies; _pricing_formula recorded), called for TWO maturities in a row on
     the same pricer: each series is evaluated at x = log(spot/strike) on the cumulant interval [a, b] OF ITS OWN maturity with
@@ -360,7 +417,9 @@ class CarrMadan(Lemma):
             x = k.get("x", a[-1] if a else None)
             seen.append(to_sp(x))
             return SpVal(PHI(to_sp(x)))
-        pr = vc.obj(FFT, cf=vc.interp.lib.Model(cf, "cf"), r=SpVal(r), alpha=SpVal(al))
+        # the discount rate is the MODEL's current rate (the pricer reads it at each valuation)
+        mdl = vc.obj("rpylib.model.levymodel.exponentialoflevymodel:ExponentialOfLevyModel", r=SpVal(r))
+        pr = vc.obj(FFT, cf=vc.interp.lib.Model(cf, "cf"), model=mdl, alpha=SpVal(al))
         res = to_sp(vc.method(pr, "_psi", SpVal(T), SpVal(v)))
         want = sp.exp(-r * T) * PHI(v - (al + 1) * I) / (al ** 2 + al - v ** 2 + I * (2 * al + 1) * v)
         vc.check_zero(nm + "::damped-transform", lambda: sp.simplify(res - want), None)
@@ -390,14 +449,33 @@ class FftParity(FunctionContract):
     def configure(self, interp):
         interp.hooks[FFT + ".call"] = lambda it, f, b: Sym(CALLF(as_real_term(lift(b["strike"])), as_real_term(lift(b["maturity"]))), "r")
 
+    cases = ("as constructed", "rate reassigned after construction")
+
     def setup(self, vc, case):
         spot, mean, r, K, T = vc.real("spot"), vc.real("mean"), vc.real("r"), vc.real("strike"), vc.real("T")
         vc.assume(And(spot > 0, mean > 0, r >= 0, K > 0, T > 0))
         vc.ghost.update(spot=spot, mean=mean, r=r, K=K, T=T)
-        model = vc.obj("rpylib.model.levymodel.exponentialoflevymodel:ExponentialOfLevyModel", spot=spot)
+        r_built = r
+        if case != "as constructed":
+            r_built = vc.real("r_at_construction")
+            vc.assume(r_built >= 0)
+        model = vc.obj("rpylib.model.levymodel.exponentialoflevymodel:ExponentialOfLevyModel", spot=spot, r=r_built)
         model.fields["mean"] = vc.interp.lib.Model(lambda it, *a, **k: mean, "mean")
-        pr = vc.obj(FFT, model=model, r=r)
+        pr = vc.new(FFT, model)                 # the real constructor: whatever it captures is captured
+        vc.interp.setattr(model, "r", r)        # the model's CURRENT rate
         return dict(self=pr, strike=K, maturity=T)
+
+    def replay(self, model, clause, case):
+        from contracts import battery
+        from rpylib.numerical.fft import FFTPricer
+        m = battery.models(("hem",))["hem"]
+        pr = FFTPricer(m)
+        if case != "as constructed":
+            m.r = m.r + 0.05
+        K, T = np.array([0.8, 1.0, 1.3]) * m.spot, 0.7
+        lhs = np.asarray(pr.call(K, T)) - np.asarray(pr.put(K, T))
+        rhs = np.exp(-m.r * T) * (m.spot * np.exp((m.r - m.d) * T) - K)
+        return (not np.allclose(lhs, rhs, rtol=1e-12, atol=1e-10), {"case": case, "strikes": K.tolist(), "call-put": lhs.tolist(), "df*(fwd-K) at the model's current rate": rhs.tolist()})
 
     def ensures(self, result, **a):
         from pyvc import ctx
@@ -407,7 +485,7 @@ class FftParity(FunctionContract):
         return {"put-is-call-minus-the-discounted-forward-minus-strike": result == call - m_exp(-g["r"] * g["T"]) * (g["spot"] * g["mean"] - g["K"])}
 
 
-UNITS = [CosCoefficients(), CosParity(), CosPutWiring(), BlackScholesClosedForm(), BlackScholesDegenerate(), VarianceGammaIsCGMY(), CarrMadan(), FftParity()]
+UNITS = [CosCoefficients(), CosParity(), CosButterfly(), CosPutWiring(), BlackScholesClosedForm(), BlackScholesDegenerate(), VarianceGammaIsCGMY(), CarrMadan(), FftParity()]
 ASSUMPTIONS = ["A1: floats are mathematical reals", "A4: sympy's calculus (differentiation, limits, erf algebra)", "A6: fundamental theorem of calculus",
                "the size of the COS truncation / FFT quadrature error is NOT decided by contracts: covered by the bounded battery on a documented box"]
 TRUSTED_BASE = ["sympy 1.14", "z3 5.1", "pyvc interpreter (analytic mode and z3 mode)"]
@@ -555,6 +633,22 @@ class PricerBattery:
             dsp = float(np.max(np.abs(np.asarray(FFTPricer(m3).call(K, 1.0)) - np.asarray(COSPricer(m3).call(K, 1.0)))))
             if dsp > TOL:
                 bad("cos-and-fft-agree", {"model": "HEM after model.spot was reassigned 100 -> 120", "T": 1.0, "max_call_difference": dsp})
+            # ONE FFT pricer across updates of its model: spot, dividend yield and rate reassigned between two valuations
+            # of the same expiry -- the second valuation is the one a fresh pricer (and COS) gives
+            ev += 1
+            m4 = _mk2(_MT2.HEM)(spot=100.0, r=0.03, d=0.01, sigma=0.1, p=0.6, eta1=25.0, eta2=40.0, intensity=5.0)
+            f4 = FFTPricer(m4)
+            f4.call(K, 1.0), f4.put(K, 1.0)
+            for attr, val in (("spot", 110.0), ("d", 0.03), ("r", 0.06)):
+                setattr(m4, attr, val)
+                dfc = float(np.max(np.abs(np.asarray(f4.call(K, 1.0)) - np.asarray(FFTPricer(m4).call(K, 1.0)))))
+                dfp = float(np.max(np.abs(np.asarray(f4.put(K, 1.0)) - np.asarray(FFTPricer(m4).put(K, 1.0)))))
+                dcs = float(np.max(np.abs(np.asarray(f4.call(K, 1.0)) - np.asarray(COSPricer(m4).call(K, 1.0)))))
+                # (the old pricer's log-strike grid stays centred on the spot at construction: the two quadratures differ by
+                # their discretisation error, 1e-7 here -- agreement is asked within the battery's tolerance, not to the bit)
+                if max(dfc, dfp) > TOL or dcs > TOL:
+                    bad("reused-pricer-equals-fresh-pricer", {"pricer": "FFT", "model": "hem", "T": 1.0, "history": f"expiry priced, model.{attr} reassigned to {val}, same expiry priced again",
+                                                              "max_call_difference_to_a_fresh_pricer": dfc, "max_put_difference_to_a_fresh_pricer": dfp, "max_call_difference_to_COS": dcs})
             # VG against its CGMY parametrisation
             from rpylib.model.utils import create_exponential_of_levy_model as mk
             from rpylib.model.levymodel.levymodel import ModelType
